@@ -152,6 +152,17 @@ def check_one(geo, bud, cfgs, dl=False, real_dl=False):
     return None, None, None, len(impl), sm
 
 
+def many_config_sets():
+    """9..12 configs of which few are due together (container iteration orders differ from config order beyond 8 entries)."""
+    never = (None, 97, None, 1, 1, None)
+    out = []
+    for due in ((1, 8), (3, 9), (0, 2, 9), (1, 8, 10), (2, 9, 11), (0, 5, 8)):
+        n = max(due) + 2
+        out.append(tuple(((None, 2, None, 2, 2, None) if i in due else never) for i in range(n)))
+        out.append(tuple(((1, None, None, 1 + (i % 2), 3, None) if i in due else never) for i in range(n)))
+    return out
+
+
 def config_sets(b, seed):
     sets = [(c,) for c in ic.config_menu_full()]
     menu = ic.config_menu_small()
@@ -171,6 +182,8 @@ def task(args):
     n = 0
     buds = list(ic.budgets(geo)) + [('epochs', 0), ('updates', 0), ('samples', 0)]
     work = [(bud, cfgs) for bud in buds for cfgs in sets]
+    if geo[0] in (3, 4) and geo[2] is False:
+        work += [(bud, cfgs) for bud in (('updates', 4), ('epochs', 2)) for cfgs in many_config_sets()]
     if geo[0] <= ic.DEEP_N:
         work += [(bud, cfgs) for bud in ic.deep_budgets(geo) for cfgs in sets if len(cfgs) <= 1]
     for bud, cfgs in work:
